@@ -404,6 +404,12 @@ class World:
         return out
 
 
+QSTAT = [0, 0.0]     # path-feasibility / concretisation queries issued by the executor itself: [count, seconds]
+def _qcheck(sv):
+    import time
+    t0 = time.time(); r = sv.check(); QSTAT[0] += 1; QSTAT[1] += time.time() - t0
+    return r
+
 class Interp:
     def __init__(s, world, decisions=None, solver=None):
         s.w = world; s.calls = 0; s.pc = []; s.decisions = list(decisions or []); s.dpos = 0; s.worklist = []
@@ -415,7 +421,7 @@ class Interp:
         if s.solver is None: s.solver = z3.Solver(); s.solver.set('timeout', 30000)
         return s.solver
     def feasible(s, extra):
-        sv = s._solver(); sv.push(); sv.add(s.pc + [extra]); r = sv.check(); sv.pop()
+        sv = s._solver(); sv.push(); sv.add(s.pc + [extra]); r = _qcheck(sv); sv.pop()
         if r == z3.unknown: raise Unsupported('feasibility query unknown')
         return r == z3.sat
     def branch(s, c):
@@ -440,7 +446,7 @@ class Interp:
         else:
             sv = s._solver(); sv.push(); sv.add(s.pc); vals = []
             while True:
-                r = sv.check()
+                r = _qcheck(sv)
                 if r == z3.unknown: sv.pop(); raise Unsupported('concretisation query unknown')
                 if r == z3.unsat: break
                 x = sv.model().eval(v, model_completion=True).as_long(); vals.append(x); sv.add(v != x)
